@@ -475,6 +475,8 @@ Unspecified(S, op) ==
   \* attribute entries of the bulk formats that are not dicts (key/value pairs, None): what happens is not
   \* documented; only the invariants of every reachable state are required afterwards
   \/ op.name = "add_edges_from" /\ (op.b2 \/ op.b4)
+  \* the same for the (node, attributes) items of add_nodes_from
+  \/ op.name = "add_nodes_from" /\ (op.b2 \/ op.b4)
 
 (* ---- action properties (evaluated on spec transitions and on logged steps) ---- *)
 AddOps == {"add_edge", "add_edges_from", "add_weighted_edges_from", "add_node_to_edge", "update"}
